@@ -164,6 +164,32 @@ pub fn run() -> (u64, Vec<String>) {
             fact(&format!("toks(Pair) `{}`[{}]", src, i), of(&pair) == exp);
         }
     }
+    // Punctuated::push / new / Default, Clone of syntax nodes
+    {
+        let mut p: syn::punctuated::Punctuated<syn::Ident, syn::token::Comma> = syn::punctuated::Punctuated::new();
+        fact("Punctuated::new is empty", p.is_empty());
+        let d: syn::punctuated::Punctuated<syn::Ident, syn::token::Comma> = Default::default();
+        fact("Punctuated::default is empty", d.is_empty());
+        p.push(syn::Ident::new("a", sp));
+        p.push(syn::Ident::new("b", sp));
+        fact("Punctuated::push appends", p.iter().map(|i| i.to_string()).collect::<Vec<_>>() == vec!["a".to_string(), "b".to_string()]);
+        let ty: syn::Type = syn::parse_str("&'a (A, B<C>)").unwrap();
+        fact("Type::clone", of(&ty.clone()) == of(&ty));
+        let gp: syn::GenericParam = syn::parse_str("T: Clone + 'static").unwrap();
+        fact("GenericParam::clone", of(&gp.clone()) == of(&gp));
+        let wp: syn::WherePredicate = syn::parse_str("T: Iterator<Item = u8>").unwrap();
+        fact("WherePredicate::clone", of(&wp.clone()) == of(&wp));
+        let b: syn::TypeParamBound = syn::parse_str("path::Tr<u8>").unwrap();
+        fact("TypeParamBound::clone", of(&b.clone()) == of(&b));
+        let sig: syn::Signature = syn::parse_str("async fn f<'a, T>(&self, a: &'a T) -> u8 where T: Copy").unwrap();
+        fact("Signature::clone", of(&sig.clone()) == of(&sig));
+        // the whole-list token content of a Punctuated (uninterpreted in the prelude) is at least consistent with its pairs
+        let mut via_pairs = TokenStream::new();
+        for pair in p.pairs() {
+            pair.to_tokens(&mut via_pairs);
+        }
+        fact("toks(Punctuated) == concatenation of its pairs", tok_abs(&via_pairs) == of(&p));
+    }
     // visibility
     fact("toks(Visibility::Inherited)", of(&syn::Visibility::Inherited).is_empty());
     fact("toks(Visibility::Public)", of(&syn::parse_str::<syn::Visibility>("pub").unwrap()) == id("pub"));
